@@ -449,4 +449,384 @@ theorem psg_frames_aux {α} (A : Arith α) (hA : SlideOK A) (items : List PsgIte
   · obtain ⟨e', h1, h2⟩ := expand_frames (st.env ++ [2, u8 st.loopPos]) st.env [2, u8 st.loopPos] {} hb (Or.inr ⟨_, rfl⟩)
     exact ⟨e', h1, by rw [h2, hF, evFrames_items]; simp [F]⟩
 
+
+/-! ## PSG: positions of the sustain and loop marks -/
+
+theorem F_cons (b : Nat) (bs : NBytes) : F (b :: bs) = List.replicate (b / 16) (15 - b % 16) ++ F bs := by
+  simp [F]
+
+/-- frame indices of the sustain bytes of a run of envelope bytes starting at frame `base` -/
+def Sus : NBytes → Nat → List Nat
+  | [], _ => []
+  | b :: bs, base => if b = 1 then base :: Sus bs base else Sus bs (base + b / 16)
+
+theorem Sus_append (a b : NBytes) (base : Nat) :
+    Sus (a ++ b) base = Sus a base ++ Sus b (base + (F a).length) := by
+  induction a generalizing base with
+  | nil => simp [Sus, F]
+  | cons x r ih =>
+    simp only [List.cons_append, Sus, F_cons, List.length_append, List.length_replicate]
+    split
+    · rename_i h; subst h; simp [ih]
+    · rw [ih]; simp [Nat.add_assoc]
+
+theorem framesBefore_eq (l : NBytes) (p : Nat) : framesBefore l p = (F (l.take p)).length := by
+  induction l generalizing p with
+  | nil => cases p <;> simp [framesBefore, F]
+  | cons b bs ih =>
+    cases p with
+    | zero => simp [framesBefore, F]
+    | succ p =>
+      simp only [framesBefore, List.take_succ_cons, F_cons, List.length_append, List.length_replicate, ih]
+      split <;> omega
+
+theorem expand_full (all env term : NBytes) (e : PsgExp)
+    (hb : ∀ b ∈ env, b = 1 ∨ (16 ≤ b ∧ b < 256))
+    (ht : term = [0] ∨ ∃ p, term = [2, p]) :
+    ∃ e', expandPsgAux all (env ++ term) e = some e' ∧ e'.frames = e.frames ++ F env ∧
+      e'.sustains = e.sustains ++ Sus env e.frames.length ∧
+      (term = [0] → e'.loopTo = e.loopTo) ∧ (∀ p, term = [2, p] → e'.loopTo = some (framesBefore all p)) := by
+  induction env generalizing e with
+  | nil =>
+    rcases ht with rfl | ⟨p, rfl⟩
+    · exact ⟨e, by simp [expandPsgAux, F, Sus]⟩
+    · refine ⟨{ e with loopTo := some (framesBefore all p) }, by simp [expandPsgAux], by simp [F], by simp [Sus], by simp, ?_⟩
+      intro q hq; simp at hq; simp [hq]
+  | cons b bs ih =>
+    have hb' : ∀ x ∈ bs, x = 1 ∨ (16 ≤ x ∧ x < 256) := fun x hx => hb x (by simp [hx])
+    rcases hb b (by simp) with rfl | hb1
+    · obtain ⟨e', h1, h2, h3, h4, h5⟩ := ih { e with sustains := e.sustains ++ [e.frames.length] } hb'
+      refine ⟨e', ?_, ?_, ?_, h4, h5⟩
+      · simpa [expandPsgAux] using h1
+      · rw [h2]; simp [F]
+      · rw [h3]; simp [Sus]
+    · obtain ⟨e', h1, h2, h3, h4, h5⟩ := ih { e with frames := e.frames ++ List.replicate (b / 16) (15 - b % 16) } hb'
+      refine ⟨e', ?_, ?_, ?_, h4, h5⟩
+      · have n0 : b ≠ 0 := by omega
+        have n1 : b ≠ 1 := by omega
+        have n2 : b ≠ 2 := by omega
+        have n16 : ¬ b < 16 := by omega
+        rw [List.cons_append]
+        unfold expandPsgAux
+        split <;> simp_all
+      · rw [h2]; simp [F, List.append_assoc]
+      · rw [h3]
+        have n1 : b ≠ 1 := by omega
+        simp [Sus, n1]
+
+/-- reference positions of the marks of an event list, counted in frames from `pos` -/
+def evSus : List PEv → Nat → List Nat
+  | [], _ => []
+  | .val _ :: r, pos => evSus r (pos + 1)
+  | .sustain :: r, pos => pos :: evSus r pos
+  | .loop :: r, pos => evSus r pos
+
+def evLoop : List PEv → Nat → Option Nat → Option Nat
+  | [], _, lp => lp
+  | .val _ :: r, pos, lp => evLoop r (pos + 1) lp
+  | .sustain :: r, pos, lp => evLoop r pos lp
+  | .loop :: r, pos, _ => evLoop r pos (some pos)
+
+/-- the loop position of the compiler state denotes `lp` frames -/
+def LoopRel (st : PsgSt) (lp : Option Nat) : Prop :=
+  (st.loopPos = -1 ∧ lp = none) ∨
+  ∃ k : Nat, st.loopPos = (k : Int) ∧ k ≤ st.env.length ∧ lp = some (F (st.env.take k)).length
+
+theorem pushVal_shape (st : PsgSt) (v : Nat) (hv : v ≤ 15) (hi : Inv st) :
+    (pushVal st v).loopPos = st.loopPos ∧
+    ((∃ pre b, st.env = pre ++ [b] ∧ 16 ≤ b ∧ st.loopPos ≠ (st.env.length : Int) ∧ (pushVal st v).env = pre ++ [b + 16]) ∨
+     (pushVal st v).env = st.env ++ [31 - v]) := by
+  obtain ⟨_, hl⟩ := hi
+  unfold pushVal
+  simp only
+  split
+  · rename_i hc
+    simp only [Bool.and_eq_true, beq_iff_eq, decide_eq_true_eq, bne_iff_ne, ne_eq] at hc
+    obtain ⟨⟨h1, _⟩, h3⟩ := hc
+    rcases hl with hl | ⟨pre, b, he, hp, hb1, _, _⟩
+    · omega
+    · refine ⟨rfl, Or.inl ⟨pre, b, he, hb1, h3, ?_⟩⟩
+      simp only [he, hp, nth_append_last, set_append_last]
+  · have hu : u8 (0x1f - (v : Int)) = 31 - v := by simp only [u8]; omega
+    exact ⟨rfl, Or.inr (by simp [hu])⟩
+
+theorem Sus_single (x base : Nat) (h : x ≠ 1) : Sus [x] base = [] := by simp [Sus, h]
+
+theorem pushVal_marks (st : PsgSt) (v : Nat) (hv : v ≤ 15) (hi : Inv st) (lp : Option Nat)
+    (hm : LoopRel st lp) :
+    Sus (pushVal st v).env 0 = Sus st.env 0 ∧ LoopRel (pushVal st v) lp := by
+  obtain ⟨hlp, hsh⟩ := pushVal_shape st v hv hi
+  rcases hsh with ⟨pre, b, he, hb1, hne, he'⟩ | he'
+  · refine ⟨?_, ?_⟩
+    · rw [he', he, Sus_append, Sus_append, Sus_single _ _ (by omega), Sus_single _ _ (by omega)]
+    · rcases hm with ⟨h1, h2⟩ | ⟨k, h1, h2, h3⟩
+      · exact Or.inl ⟨by rw [hlp]; exact h1, h2⟩
+      · refine Or.inr ⟨k, by rw [hlp]; exact h1, ?_, ?_⟩
+        · rw [he']; rw [he] at h2; simpa using h2
+        · have hk : k ≤ pre.length := by
+            rw [he] at h2 hne; simp at h2 hne; omega
+          rw [h3, he', he, List.take_append_of_le_length hk, List.take_append_of_le_length hk]
+  · refine ⟨?_, ?_⟩
+    · rw [he', Sus_append, Sus_single _ _ (by omega)]; simp
+    · rcases hm with ⟨h1, h2⟩ | ⟨k, h1, h2, h3⟩
+      · exact Or.inl ⟨by rw [hlp]; exact h1, h2⟩
+      · refine Or.inr ⟨k, by rw [hlp]; exact h1, ?_, ?_⟩
+        · rw [he']; simp; omega
+        · rw [h3, he', List.take_append_of_le_length h2]
+
+theorem psgSustain_marks (st : PsgSt) (hl : st.last ≠ -1) (lp : Option Nat) (hm : LoopRel st lp) :
+    Sus (psgSustain st).env 0 = Sus st.env 0 ++ [(F st.env).length] ∧ LoopRel (psgSustain st) lp := by
+  have : (st.last == -1) = false := by simp [hl]
+  have he : (psgSustain st).env = st.env ++ [1] := by simp [psgSustain, this]
+  have hp : (psgSustain st).loopPos = st.loopPos := rfl
+  refine ⟨by rw [he, Sus_append]; simp [Sus], ?_⟩
+  rcases hm with ⟨h1, h2⟩ | ⟨k, h1, h2, h3⟩
+  · exact Or.inl ⟨by rw [hp]; exact h1, h2⟩
+  · refine Or.inr ⟨k, by rw [hp]; exact h1, ?_, ?_⟩
+    · rw [he]; simp; omega
+    · rw [h3, he, List.take_append_of_le_length h2]
+
+theorem psgLoop_marks (st : PsgSt) : LoopRel (psgLoop st) (some (F st.env).length) := by
+  refine Or.inr ⟨st.env.length, rfl, Nat.le_refl _, ?_⟩
+  simp [psgLoop]
+
+theorem applyEvs_marks (evs : List PEv) (st : PsgSt) (have_ : Bool) (hi : Inv st)
+    (hh : have_ = true → st.last ≠ -1) (hok : evsOk evs have_ = true) (lp : Option Nat) (hm : LoopRel st lp) :
+    Sus (evs.foldl applyEv st).env 0 = Sus st.env 0 ++ evSus evs (F st.env).length ∧
+      LoopRel (evs.foldl applyEv st) (evLoop evs (F st.env).length lp) := by
+  induction evs generalizing st have_ lp with
+  | nil => simp [evSus, evLoop, hm]
+  | cons e r ih =>
+    cases e with
+    | val v =>
+      simp only [evsOk, Bool.and_eq_true, decide_eq_true_eq] at hok
+      obtain ⟨h1, h2⟩ := pushVal_spec st v hok.1 hi
+      obtain ⟨m1, m2⟩ := pushVal_marks st v hok.1 hi lp hm
+      have := ih (pushVal st v) true h1 (by intro _; rw [pushVal_last]; omega) hok.2 lp m2
+      simp only [List.foldl_cons, applyEv, evSus, evLoop]
+      rw [h2, m1] at this
+      simpa using this
+    | sustain =>
+      simp only [evsOk, Bool.and_eq_true] at hok
+      obtain ⟨h1, h2⟩ := psgSustain_spec st hi (hh hok.1)
+      obtain ⟨m1, m2⟩ := psgSustain_marks st (hh hok.1) lp hm
+      have := ih (psgSustain st) false h1 (by intro h; cases h) hok.2 lp m2
+      simp only [List.foldl_cons, applyEv, evSus, evLoop]
+      rw [h2, m1] at this
+      simpa using this
+    | loop =>
+      simp only [evsOk] at hok
+      have := ih (psgLoop st) have_ (psgLoop_spec st hi).1 hh hok _ (psgLoop_marks st)
+      simp only [List.foldl_cons, applyEv, evSus, evLoop]
+      exact this
+
+/-- every byte carries a frame or is a sustain mark -/
+theorem length_le_frames (l : NBytes) (base : Nat) (hb : ∀ b ∈ l, b = 1 ∨ (16 ≤ b ∧ b < 256)) :
+    l.length ≤ (F l).length + (Sus l base).length := by
+  induction l generalizing base with
+  | nil => simp
+  | cons b bs ih =>
+    have hb' : ∀ x ∈ bs, x = 1 ∨ (16 ≤ x ∧ x < 256) := fun x hx => hb x (by simp [hx])
+    rcases hb b (by simp) with rfl | hb1
+    · have := ih base hb'
+      simp only [List.length_cons, F_cons, Sus, List.length_append, List.length_replicate, if_true]
+      omega
+    · have := ih (base + b / 16) hb'
+      have n1 : b ≠ 1 := by omega
+      have : 1 ≤ b / 16 := by omega
+      simp only [List.length_cons, F_cons, Sus, n1, if_false, List.length_append, List.length_replicate]
+      omega
+
+
+/-! ## PSG: marks at the item level -/
+
+theorem evSus_map_val (vs : List Nat) (rest : List PEv) (pos : Nat) :
+    evSus (vs.map PEv.val ++ rest) pos = evSus rest (pos + vs.length) := by
+  induction vs generalizing pos with
+  | nil => rfl
+  | cons v r ih => simp [evSus, ih]; congr 1; omega
+
+theorem evLoop_map_val (vs : List Nat) (rest : List PEv) (pos : Nat) (lp : Option Nat) :
+    evLoop (vs.map PEv.val ++ rest) pos lp = evLoop rest (pos + vs.length) lp := by
+  induction vs generalizing pos with
+  | nil => rfl
+  | cons v r ih => simp [evLoop, ih]; congr 1; omega
+
+/-- positions of the marks as written: frames are counted with the written lengths -/
+def refSus : List PsgItem → Nat → List Nat
+  | [], _ => []
+  | .value _ _ n :: r, pos => refSus r (pos + n)
+  | .sustain :: r, pos => pos :: refSus r pos
+  | .loop :: r, pos => refSus r pos
+
+def refLoop : List PsgItem → Nat → Option Nat → Option Nat
+  | [], _, lp => lp
+  | .value _ _ n :: r, pos, lp => refLoop r (pos + n) lp
+  | .sustain :: r, pos, lp => refLoop r pos lp
+  | .loop :: r, pos, _ => refLoop r pos (some pos)
+
+/-- written size: frames plus sustain marks (an upper bound of the number of bytes) -/
+def psgSize : List PsgItem → Nat
+  | [] => 0
+  | .value _ _ n :: r => n + psgSize r
+  | .sustain :: r => 1 + psgSize r
+  | .loop :: r => psgSize r
+
+def LenOK {α} (A : Arith α) (items : List PsgItem) : Prop :=
+  ∀ i t n, PsgItem.value i t n ∈ items → (slideOf A i t n).length = n
+
+theorem LenOK_tail {α} (A : Arith α) (x : PsgItem) (r : List PsgItem) (h : LenOK A (x :: r)) : LenOK A r :=
+  fun i t n hm => h i t n (by simp [hm])
+
+theorem evSus_items {α} (A : Arith α) (items : List PsgItem) (pos : Nat) (hl : LenOK A items) :
+    evSus (items.flatMap (itemEvs A)) pos = refSus items pos := by
+  induction items generalizing pos with
+  | nil => rfl
+  | cons it r ih =>
+    have ih' := fun p => ih p (LenOK_tail A it r hl)
+    cases it with
+    | value i t n =>
+      simp only [List.flatMap_cons, itemEvs, evSus_map_val, refSus, hl i t n (by simp), ih']
+    | sustain => simp [itemEvs, evSus, refSus, ih']
+    | loop => simp [itemEvs, evSus, refSus, ih']
+
+theorem evLoop_items {α} (A : Arith α) (items : List PsgItem) (pos : Nat) (lp : Option Nat) (hl : LenOK A items) :
+    evLoop (items.flatMap (itemEvs A)) pos lp = refLoop items pos lp := by
+  induction items generalizing pos lp with
+  | nil => rfl
+  | cons it r ih =>
+    have ih' := fun p l => ih p l (LenOK_tail A it r hl)
+    cases it with
+    | value i t n =>
+      simp only [List.flatMap_cons, itemEvs, evLoop_map_val, refLoop, hl i t n (by simp), ih']
+    | sustain => simp [itemEvs, evLoop, refLoop, ih']
+    | loop => simp [itemEvs, evLoop, refLoop, ih']
+
+theorem size_items {α} (A : Arith α) (items : List PsgItem) (pos : Nat) (hl : LenOK A items) :
+    (items.flatMap (itemFrames A)).length + (refSus items pos).length = psgSize items := by
+  induction items generalizing pos with
+  | nil => rfl
+  | cons it r ih =>
+    have ih' := fun p => ih p (LenOK_tail A it r hl)
+    cases it with
+    | value i t n =>
+      have := ih' (pos + n)
+      simp only [List.flatMap_cons, itemFrames, List.length_append, hl i t n (by simp), refSus, psgSize]
+      omega
+    | sustain =>
+      have := ih' pos
+      simp only [List.flatMap_cons, itemFrames, List.nil_append, refSus, List.length_cons, psgSize]
+      omega
+    | loop =>
+      have := ih' pos
+      simp only [List.flatMap_cons, itemFrames, List.nil_append, refSus, psgSize]
+      omega
+
+theorem checkPsg_ok {α} (A : Arith α) (items : List PsgItem) (pos : Nat) (sus : List Nat) (lp : Option Nat)
+    (e : PsgExp)
+    (hsh : ∀ i t n, PsgItem.value i t n ∈ items → slideShape i t n (slideOf A i t n) = true)
+    (hs : e.sustains = sus ++ refSus items pos) (hl : e.loopTo = refLoop items pos lp) :
+    checkPsg items (items.flatMap (itemFrames A)) pos sus lp e = true := by
+  induction items generalizing pos sus lp with
+  | nil => simp [checkPsg, hs, hl, refSus, refLoop]
+  | cons it r ih =>
+    have hsh' : ∀ i t n, PsgItem.value i t n ∈ r → slideShape i t n (slideOf A i t n) = true :=
+      fun i t n hm => hsh i t n (by simp [hm])
+    cases it with
+    | value i t n =>
+      have h := hsh i t n (by simp)
+      have hlen : (slideOf A i t n).length = n := by
+        simp only [slideShape, Bool.and_eq_true, beq_iff_eq] at h
+        exact h.1.1.1.1
+      simp only [List.flatMap_cons, itemFrames, checkPsg, Bool.and_eq_true]
+      have ht : ((slideOf A i t n) ++ r.flatMap (itemFrames A)).take n = slideOf A i t n :=
+        List.take_left' hlen
+      have hd : ((slideOf A i t n) ++ r.flatMap (itemFrames A)).drop n = r.flatMap (itemFrames A) :=
+        List.drop_left' hlen
+      rw [ht, hd]
+      exact ⟨h, ih (pos + n) sus lp hsh' (by simp only [refSus] at hs; exact hs) (by simp only [refLoop] at hl; exact hl)⟩
+    | sustain =>
+      simp only [List.flatMap_cons, itemFrames, List.nil_append, checkPsg]
+      exact ih pos (sus ++ [pos]) lp hsh' (by simp only [refSus] at hs; simpa using hs) (by simp only [refLoop] at hl; exact hl)
+    | loop =>
+      simp only [List.flatMap_cons, itemFrames, List.nil_append, checkPsg]
+      exact ih pos sus (some pos) hsh' (by simp only [refSus] at hs; exact hs) (by simp only [refLoop] at hl; exact hl)
+
+theorem shape_of_ok {α} (A : Arith α) (hA : SlideOK A) (items : List PsgItem) (h : Bool)
+    (hok : itemsOk items h = true) :
+    ∀ i t n, PsgItem.value i t n ∈ items → slideShape i t n (slideOf A i t n) = true := by
+  induction items generalizing h with
+  | nil => intro _ _ _ hm; cases hm
+  | cons x r ih =>
+    intro i t n hm
+    cases x with
+    | value i' t' n' =>
+      simp only [itemsOk, Bool.and_eq_true, decide_eq_true_eq] at hok
+      rcases List.mem_cons.mp hm with heq | hm'
+      · cases heq; exact hA i t n hok.1.1.1.1 hok.1.1.1.2 hok.1.1.2 hok.1.2
+      · exact ih true hok.2 i t n hm'
+    | sustain =>
+      simp only [itemsOk, Bool.and_eq_true] at hok
+      rcases List.mem_cons.mp hm with heq | hm'
+      · cases heq
+      · exact ih false hok.2 i t n hm'
+    | loop =>
+      simp only [itemsOk] at hok
+      rcases List.mem_cons.mp hm with heq | hm'
+      · cases heq
+      · exact ih h hok i t n hm'
+
+theorem u8_small (k : Nat) (h : k < 256) : u8 (k : Int) = k := by simp only [u8]; omega
+
+/-- the full PSG clause modulo `SlideOK` -/
+theorem psg_full_aux {α} (A : Arith α) (hA : SlideOK A) (items : List PsgItem)
+    (hok : itemsOk items false = true) (hfit : psgSize items < 256) :
+    ∃ e, expandPsg (psgFinish (items.foldl (psgItem A) {})) = some e ∧
+      e.frames = items.flatMap (itemFrames A) ∧
+      e.sustains = refSus items 0 ∧ e.loopTo = refLoop items 0 none ∧
+      psgMeets items e = true := by
+  have hsh := shape_of_ok A hA items false hok
+  have hlen : LenOK A items := by
+    intro i t n hm
+    have h := hsh i t n hm
+    simp only [slideShape, Bool.and_eq_true, beq_iff_eq] at h
+    exact h.1.1.1.1
+  have hev := evsOk_items A hA items false hok
+  have h := applyEvs_spec (items.flatMap (itemEvs A)) {} false inv_init (by intro h; cases h) hev
+  have hm := applyEvs_marks (items.flatMap (itemEvs A)) {} false inv_init (by intro h; cases h) hev none
+    (Or.inl ⟨rfl, rfl⟩)
+  rw [← psgItems_eq] at h hm
+  obtain ⟨⟨hb, _⟩, hF⟩ := h
+  obtain ⟨hS, hL⟩ := hm
+  have hF0 : F ({} : PsgSt).env = [] := rfl
+  have hS0 : Sus ({} : PsgSt).env 0 = [] := rfl
+  simp only [hF0, hS0, List.nil_append, List.length_nil, evFrames_items, evSus_items A items 0 hlen,
+    evLoop_items A items 0 none hlen] at hF hS hL
+  generalize items.foldl (psgItem A) {} = st at hb hF hS hL
+  have hsize : st.env.length < 256 := by
+    have h1 := length_le_frames st.env 0 hb
+    have h2 := size_items A items 0 hlen
+    rw [hF, hS] at h1
+    omega
+  have key : ∃ e, expandPsg (psgFinish st) = some e ∧ e.frames = items.flatMap (itemFrames A) ∧
+      e.sustains = refSus items 0 ∧ e.loopTo = refLoop items 0 none := by
+    unfold psgFinish expandPsg
+    rcases hL with ⟨h1, h2⟩ | ⟨k, h1, h2, h3⟩
+    · have : (st.loopPos == -1) = true := by simp [h1]
+      simp only [this, if_true]
+      obtain ⟨e', g1, g2, g3, g4, _⟩ := expand_full (st.env ++ [0]) st.env [0] {} hb (Or.inl rfl)
+      exact ⟨e', g1, by rw [g2, hF]; rfl, by rw [g3]; simpa using hS, by rw [g4 rfl, h2]⟩
+    · have : (st.loopPos == -1) = false := by simp [h1]
+      simp only [this]
+      have hk : u8 st.loopPos = k := by rw [h1]; exact u8_small k (by omega)
+      rw [hk]
+      obtain ⟨e', g1, g2, g3, _, g5⟩ := expand_full (st.env ++ [2, k]) st.env [2, k] {} hb (Or.inr ⟨_, rfl⟩)
+      refine ⟨e', by simpa using g1, by rw [g2, hF]; rfl, by rw [g3]; simpa using hS, ?_⟩
+      rw [g5 k rfl, framesBefore_eq, List.take_append_of_le_length h2, ← h3]
+  obtain ⟨e, k1, k2, k3, k4⟩ := key
+  refine ⟨e, k1, k2, k3, k4, ?_⟩
+  unfold psgMeets
+  rw [k2]
+  exact checkPsg_ok A items 0 [] none e hsh (by simpa using k3) k4
+
 end Ctrmml.MdsData
